@@ -296,4 +296,37 @@ open Jomini.DomBridge in
 /-- … and those are the Dom model's groups = the stable group-by-key of the fields. -/
 theorem C17_bridge_json_groups : type_of% @json_groups := @json_groups
 
+/-! text deserializer model (`Model/TextDe.lean`, tape path): `tTape` / `tTok` translate its
+tokens; `dOut` maps the Dom outcomes onto its single failure outcome (`panic`). -/
+
+open Jomini.DomBridge in
+/-- TextDe model: `next_idx` is identical for every tape, index and fuel. -/
+theorem C17_bridge_textde_nextIdx : type_of% @textde_nextIdx := @textde_nextIdx
+open Jomini.DomBridge in
+theorem C17_bridge_textde_nextIdxHeader : type_of% @textde_nextIdxHeader := @textde_nextIdxHeader
+open Jomini.DomBridge in
+theorem C17_bridge_textde_nextIdxValues : type_of% @textde_nextIdxValues := @textde_nextIdxValues
+open Jomini.DomBridge in
+/-- TextDe model: one step of `FieldsIter::next` agrees (item, finished, panic) for every tape
+and state, except on the `debug_assert!` arm. -/
+theorem C17_bridge_textde_fieldsNext : type_of% @textde_fieldsNext := @textde_fieldsNext
+open Jomini.DomBridge in
+theorem C17_bridge_textde_remainder : type_of% @textde_remainder := @textde_remainder
+open Jomini.DomBridge in
+/-- TextDe model: `read_array` (plain, mixed loop, header view) is identical for every tape. -/
+theorem C17_bridge_textde_readArray : type_of% @textde_readArray := @textde_readArray
+
+/-! writer model (`Model/Writer.lean`, the walk behind `writeTape`): `wTape` / `wTok`; `wOut` maps
+the Dom outcomes onto `WErr.panic` / `WErr.fuel`.  The writer's `FieldsIter` / `ValuesIter` steps
+are fused with the writing (`writeObjectCore`, `writeValues`) and use exactly these three
+functions for their index arithmetic. -/
+
+open Jomini.DomBridge in
+/-- writer model: `next_idx` is identical for every token list and index. -/
+theorem C17_bridge_writer_nextIdx : type_of% @writer_nextIdx := @writer_nextIdx
+open Jomini.DomBridge in
+theorem C17_bridge_writer_nextIdxHeader : type_of% @writer_nextIdxHeader := @writer_nextIdxHeader
+open Jomini.DomBridge in
+theorem C17_bridge_writer_nextIdxValues : type_of% @writer_nextIdxValues := @writer_nextIdxValues
+
 end Jomini.Props.C17
